@@ -94,3 +94,30 @@ func init() {
 		assumptions: []string{"go/ssa and go/types model the program faithfully", "traffic paths are the call-graph closure of per-packet closures, goroutine entries and the exported per-packet entry points of pacers/estimators/recorders"},
 	}
 }
+
+func init() {
+	std := []string{"go/ssa and go/types model the program faithfully; callees are resolved by type information"}
+	props["C15"] = &propDef{
+		id: "C15", title: "Transport-wide sequence numbers are gap-free and unique across streams",
+		explanation: "Decides the structural clauses from which gap-freedom and uniqueness follow: I1 — the extension value derives from the result of one sync/atomic read-modify-write Add(&counter, 1) (never from a separate load, never from Load+Store), and C3 — the counter field is only ever accessed through sync/atomic; I2 — on every path of the writer closure at most one number is allocated, the allocation dominates SetExtension and is not in a loop; " +
+			"A1 — after the extension is set the packet is forwarded exactly once or an error is returned; A3 — nothing else in the caller's header/payload is written; A0 — a stream that did not negotiate the extension gets its writer back unchanged. A single atomic fetch-and-add by 1 hands every caller a distinct consecutive uint32; truncation of consecutive integers to 16 bits is consecutive modulo 2^16.",
+		notDecided:  "a number is consumed when SetExtension fails (ids outside 1..14 / foreign extension profile — outside the quantifier); ordering between allocation and the downstream write of concurrent writers",
+		sels:        []sel{s("I1"), s("I2"), s("C3", `twcc\.HeaderExtensionInterceptor`), s("A1", `twcc\.\(\*HeaderExtensionInterceptor\)`), s("A3", `twcc\.\(\*HeaderExtensionInterceptor\)`), s("A0", `twcc\.\(\*HeaderExtensionInterceptor\)`)},
+		assumptions: std,
+	}
+	props["C18"] = &propDef{
+		id: "C18", title: "Jitter buffer emits pushed packets in sequence order, at most once",
+		explanation: "Decides three structural clauses: L1 — every exported Pop* method of JitterBuffer reaches the queue only on the playing branch of the state test and the other branch returns an error (sibling agreement over Pop, PopAtSequence, PopAtTimestamp); L2 — the playout head is only advanced where the queue call's error is known nil (a failed pop does not disturb the buffer); " +
+			"L3 — every Clear resets each root from which queries traverse (PriorityQueue.next, JitterBuffer.packets, RTPBuffer.packets): assigned nil/fresh, element-cleared over the whole range, or delegated — otherwise Find/PopAt/PopAtTimestamp still return what was buffered before Clear.",
+		notDecided:  "sortedness of the linked list for arbitrary push orders (plain < on uint16, not wrap-aware), length bookkeeping, that PopAtSequence advances the head by one whatever sequence was popped, scalar playout state (playoutReady/playoutHead) after Clear(true)",
+		sels:        []sel{s("L1"), s("L2"), s("L3")},
+		assumptions: std,
+	}
+	props["C20"] = &propDef{
+		id: "C20", title: "Sequence-number unwrapping is congruent to its input (congruence clause only)",
+		explanation: "Decides one clause by abstract interpretation of (*Unwrapper).Unwrap's SSA: J1 — with symbols i (the uint16 input) and L (the previous result), every integer value is tracked as an affine form a·i + b·L + c over ℤ/2^16 (constants reduced modulo 65536, width conversions are class-preserving, φ joins must agree, branches are ignored so the clause holds on every path); at every return the result and the stored state are exactly 1·i + 0·L + 0. This proves for all inputs and all prior states that the value returned is congruent to the input modulo 2^16.",
+		notDecided:  "non-negativity, the ±2^15 proximity to the previous result (needs interval reasoning coupled to the half-range predicate), and every NTP clause (float64 rounding, monotonicity, 1 µs round trip) — numerical, not decidable by a structural rule",
+		sels:        []sel{s("J1")},
+		assumptions: std,
+	}
+}
